@@ -90,7 +90,7 @@ pub fn run(reg: &dyn Registry, ctx: &Ctx) -> Outcome {
                 for (tname, mut target) in [("a fresh generator", makers[s.maker].make()), ("a generator in another state", materialise(&makers, &states[j]))] {
                     let r = crate::ops::guarded(|| target.clone_from_dyn(objs[i].as_ref()));
                     ctx.add("clones", 1);
-                    let rp = json!({"kind":"note","type":info.name,"maker":makers[s.maker].describe(),"ops":ops_json(&s.history),"clone_from_target":tname,"target_ops":ops_json(&states[j].history)});
+                    let rp = json!({"kind":"clone-from","type":info.name,"maker":makers[s.maker].describe(),"ops":ops_json(&s.history),"clone_from_target":tname,"target_ops":ops_json(&states[j].history)});
                     if let Err(o) = r {
                         ctx.violation(&format!("C10:{}:clone_from-panic", info.name), &format!("{}: clone_from panicked: {:?}", info.name, o), rp);
                         break;
@@ -302,7 +302,7 @@ pub fn run(reg: &dyn Registry, ctx: &Ctx) -> Outcome {
                             let e1 = nb.eq_dyn(objs[si].as_ref()) == Some(true);
                             let e2 = objs[si].eq_dyn(nb.as_ref()) == Some(true);
                             if e1 != e2 {
-                                ctx.violation(&format!("C10:{}:eq-asymmetric", info.name), &format!("{}: == is not symmetric between the state after {} and the state whose serde image differs from its image in byte {}", info.name, ops_short(&states[si].history), p), json!({"kind":"note","type":info.name,"maker":makers[states[si].maker].describe(),"ops":ops_json(&states[si].history),"image_byte":p,"flip":flip}));
+                                ctx.violation(&format!("C10:{}:eq-asymmetric", info.name), &format!("{}: == is not symmetric between the state after {} and the state whose serde image differs from its image in byte {}", info.name, ops_short(&states[si].history), p), json!({"kind":"image-neighbour","type":info.name,"maker":makers[states[si].maker].describe(),"ops":ops_json(&states[si].history),"image_byte":p,"flip":flip}));
                                 break;
                             }
                             if !e1 {
@@ -316,7 +316,7 @@ pub fn run(reg: &dyn Registry, ctx: &Ctx) -> Outcome {
                                 ctx.violation(
                                     &format!("C10:{}:equal-but-different-future", info.name),
                                     &format!("{}: the state after {} and the state restored from its serde image with byte {} changed (xor {:#x}) compare equal, but under {} they return {:?} and {:?}", info.name, ops_short(&states[si].history), p, flip, ops_short(&future), oa.iter().map(|o| o.to_json()).collect::<Vec<_>>(), ob.iter().map(|o| o.to_json()).collect::<Vec<_>>()),
-                                    json!({"kind":"note","type":info.name,"maker":makers[states[si].maker].describe(),"ops":ops_json(&states[si].history),"image_byte":p,"flip":flip}),
+                                    json!({"kind":"image-neighbour","type":info.name,"maker":makers[states[si].maker].describe(),"ops":ops_json(&states[si].history),"image_byte":p,"flip":flip}),
                                 );
                                 break;
                             }
@@ -486,6 +486,14 @@ pub fn run(reg: &dyn Registry, ctx: &Ctx) -> Outcome {
         }
     }
     let _ = Family::Core;
+    // every `==` evaluated above was accompanied by `!=`: they must be negations of each other
+    {
+        let n = reg.eq_ne_inconsistencies();
+        ctx.set("eq_ne_inconsistencies", n);
+        if n > 0 {
+            ctx.violation("C10:eq-ne-inconsistent", &format!("in {} comparisons `a != b` was not the negation of `a == b` (a hand-written `ne`)", n), json!({"kind":"note","count":n}));
+        }
+    }
     ctx.set_exhaustive(true);
     Outcome {
         level: "model_checking",
